@@ -99,7 +99,7 @@ def requests(tier, seed):
                     "short_name_PlackettLuce", "CambridgeSampler"]:
             for nb in (1, 2, 3):
                 reqs.append(blank("generator", gen=gen, quota=cls, n=nb))
-    for gen in ["intervals_overlap", "combine_props_sum", "combine_within_rounding", "point_sum", "", "duplicate_candidates_adjacent", "duplicate_candidates_apart"]:
+    for gen in ["intervals_overlap", "intervals_overlap_zero_support", "combine_props_sum", "combine_within_rounding", "point_sum", "", "duplicate_candidates_adjacent", "duplicate_candidates_apart"]:
         for nb in (2, 3):
             reqs.append(blank("generator", gen=gen, quota="helper", n=nb))
     return reqs
@@ -253,10 +253,12 @@ def generator_request(t):
     from votekit.pref_interval import combine_preference_intervals
     gen, cls, nb = t["gen"], t["quota"], t["n"]
     if cls == "helper":
-        if gen in ("intervals_overlap", "combine_props_sum", "combine_within_rounding", ""):
+        if gen in ("intervals_overlap", "intervals_overlap_zero_support", "combine_props_sum", "combine_within_rounding", ""):
             ivs = [PreferenceInterval({"A%d" % i: 0.6, "B%d" % i: 0.4}) for i in range(nb)]
             if gen == "intervals_overlap":
                 ivs[-1] = PreferenceInterval({"A0": 0.5, "Z": 0.5})
+            if gen == "intervals_overlap_zero_support":      # the shared candidate has support 0 in one of the two intervals
+                ivs[-1] = PreferenceInterval({"A0": 0.0, "Z": 1.0})
             props = [1.0 / nb] * nb
             if gen == "combine_props_sum":
                 props[0] += 0.01
